@@ -127,6 +127,16 @@ func runC02(c *fw.Ctx) {
 			}, 2)
 		}
 
+		// Div with operands of extreme magnitude (quotient and both partial derivatives representable)
+		one("div/"+sk+"/tiny-divisor", func(k *fw.K) (ref.Instr, []*ref.T) {
+			a, b := u(k, shape), u(k, shape)
+			for i := range a.Data {
+				a.Data[i] *= 1e-200
+				b.Data[i] *= 1e-170
+			}
+			return ref.Instr{Op: "div"}, []*ref.T{a, b}
+		}, 2)
+
 		// ----- shape operations -----
 		for dim := 0; dim <= rank; dim++ {
 			dim := dim
